@@ -75,12 +75,43 @@ Section SortDoc.
     apply G. exact I.
   Qed.
 
+  (* stability: items that are pairwise tied (none less than another) keep their input order *)
+  Lemma move_left_split x : forall rl passed, Forall (fun y => less x y = true) passed ->
+    exists l1 l2, move_left pf x rl passed = l1 ++ x :: l2 /\ l1 ++ l2 = rev rl ++ passed /\ Forall (fun y => less x y = true) l2.
+  Proof.
+    induction rl as [|y rl IH]; intros passed F; simpl.
+    - exists [], passed. auto.
+    - destruct (less x y) eqn:L.
+      + destruct (IH (y :: passed)) as (l1 & l2 & E & A & F2); [constructor; auto|].
+        exists l1, l2. repeat split; auto. rewrite A, <- app_assoc. reflexivity.
+      + exists (rev rl ++ [y]), passed. auto.
+  Qed.
+  Theorem insertion_sort_stable (P : item -> bool) l :
+    (forall a b, P a = true -> P b = true -> less a b = false) ->
+    filter P (insertion_sort pf l) = filter P l.
+  Proof.
+    intros TIE. unfold insertion_sort.
+    assert (G : forall acc, filter P (fold_left (fun sorted x => move_left pf x (rev sorted) []) l acc) = filter P acc ++ filter P l).
+    { induction l as [|x l IH]; intros acc; simpl; [rewrite app_nil_r; reflexivity|].
+      rewrite IH. destruct (move_left_split x (rev acc) []) as (l1 & l2 & E & A & F2); [constructor|].
+      rewrite E. rewrite rev_involutive, app_nil_r in A. rewrite filter_app. simpl.
+      assert (N : P x = true -> filter P l2 = []).
+      { intros PX. clear -TIE PX F2. induction F2 as [|y l2 H F IH]; simpl; auto.
+        destruct (P y) eqn:PY; auto. rewrite (TIE x y PX PY) in H. discriminate. }
+      rewrite <- A, filter_app. destruct (P x) eqn:PX.
+      - rewrite (N eq_refl). rewrite app_nil_r. rewrite <- app_assoc. reflexivity.
+      - rewrite <- !app_assoc. reflexivity. }
+    apply (G []).
+  Qed.
+
   (* sort / sort_by: the values in an order that is a permutation of the input, keys never out of order *)
   Theorem sort_items_doc by_ vs xs items : sort_items pf by_ (JArr vs) (JArr xs) = Val items ->
-    Permutation items (combine vs xs) /\ ((forall a b, less a b = true -> less b a = false) -> lsorted items).
+    Permutation items (combine vs xs) /\ ((forall a b, less a b = true -> less b a = false) -> lsorted items)
+    /\ (forall P : item -> bool, (forall a b, P a = true -> P b = true -> less a b = false) ->
+        filter P items = filter P (combine vs xs)).
   Proof.
     unfold sort_items. destruct (negb (llen vs =? llen xs)); [discriminate|]. intros H. inversion H; subst.
-    split; [apply insertion_sort_perm|apply insertion_sort_sorted].
+    split; [apply insertion_sort_perm|split; [apply insertion_sort_sorted|intros P T; apply insertion_sort_stable; auto]].
   Qed.
   Theorem f_sort_doc vs : exists items, f_sort_by pf false (JArr vs) (JArr vs) = Val (JArr (map fst items))
     /\ Permutation items (combine vs vs) /\ ((forall a b, less a b = true -> less b a = false) -> lsorted items).
